@@ -1,4 +1,5 @@
 import Mercure.Lemmas.Selector
+import Mercure.Lemmas.Template
 import Mercure.Generated.Facts
 /-
   C11 — Topic selector matching follows the protocol and caching never changes an answer.
@@ -232,6 +233,44 @@ theorem C11_counterexample_unvalidated :
     ∧ matchSpec { valid := fun _ => true, expands := fun s t => s.head? == t.head? }
         "{x}_a_c".toList "a".toList = false := by decide +kernel
 
+/-! ### the template library as a definition (Model/Template) instead of a parameter -/
+
+/-- With the Lean model of `uritemplate.New` / `Template.Regexp().MatchString` in the place of the
+    oracle, the store of /repo answers the protocol's relation for that concrete library model —
+    any cache size, any shard count, any history of lookups. -/
+theorem C11_repo_concrete (cap shards : Nat) (ls : List (Str × Str)) :
+    (runLookups Template.oracle Facts.matchKeySegs (Store.new cap shards) ls).1
+      = ls.map (fun p => matchSpec Template.oracle p.1 p.2) :=
+  C11_repo Template.oracle cap shards ls
+
+/-- "…of which the topic is an expansion": for a template whose expressions are all `{name}` — the
+    shape of nearly every selector in use — **every expansion matches**, whatever values the variables
+    take (any scalar sequence, or undefined). -/
+theorem expansion_matches (items : List Template.Item) (h : Template.Level1 items) (vals : Str → Option Str) :
+    Template.matchTemplate items (Template.expand1 vals items) = true :=
+  Template.expansion_matches items h vals
+
+/-- and conversely for the commonest shape, `literal{var}`: it matches exactly the literal followed by
+    unreserved characters, commas and `%XX` triplets — never a topic that continues with `/`, `?`, `#`,
+    `:`, a space, a non-ASCII character or a stray `%`. -/
+theorem lit_var_matches_iff (p : Str) (v : Template.VarSpec) (hv : v.explode = false) (t : Str) :
+    Template.matchTemplate [.lit p, .expr .simple [v]] t = true ↔ ∃ w, t = p ++ w ∧ Template.ClassStr w :=
+  Template.lit_var_matches_iff p v hv t
+
+/-- a template without expression matches only itself -/
+theorem literal_template_matches_itself (l t : Str) : Template.matchTemplate [.lit l] t = true ↔ t = l :=
+  Template.matchItems_single_lit l t
+
+/-! non-vacuity / sanity on concrete selectors (kernel evaluation of the parser; the matcher is defined
+    by well-founded recursion and is exercised by the `tpl` family instead) -/
+example : Template.parse "https://example.com/books/{id}".toList
+    = some [.lit "https://example.com/books/".toList, .expr .simple [{ name := "id".toList }]] := by decide +kernel
+example : Template.parse "{/a,b*}{?q:3}".toList
+    = some [.expr .slash [{ name := ['a'] }, { name := ['b'], explode := true }], .expr .query [{ name := ['q'], maxlen := 3 }]] := by decide +kernel
+example : Template.valid "{a:0}".toList = false ∧ Template.valid "{a..b}".toList = false ∧ Template.valid "a}".toList = false
+    ∧ Template.valid "{!a}".toList = false ∧ Template.valid "%zz".toList = false ∧ Template.valid "{a".toList = false := by decide +kernel
+
+
 end Mercure.C11
 
 #print axioms Mercure.C11.matchSpec_iff
@@ -242,3 +281,7 @@ end Mercure.C11
 #print axioms Mercure.C11.C11_repo
 #print axioms Mercure.C11.concurrent_hit_is_spec
 #print axioms Mercure.C11.C11_counterexample_unvalidated
+#print axioms Mercure.C11.C11_repo_concrete
+#print axioms Mercure.C11.expansion_matches
+#print axioms Mercure.C11.lit_var_matches_iff
+#print axioms Mercure.C11.literal_template_matches_itself
